@@ -182,6 +182,73 @@ def replay_refs(state):
         cleanup()
 
 
+# ------------------------------------------------------------------ C02: the module the MODEL predicts
+def module_struct(text):
+    """generated module text -> the structure PyModule.tla predicts (read back with ast)"""
+    from checks_elem import _type_expr
+    out = []
+    for node in ast.parse(text).body:
+        if not isinstance(node, ast.ClassDef):
+            continue
+        c = {"name": node.name, "base": node.bases[0].id if node.bases and isinstance(node.bases[0], ast.Name) else "",
+             "args": sorted(k.arg for k in node.keywords if k.arg), "doc": [], "props": []}
+        body = node.body
+        if body and isinstance(body[0], ast.Expr) and isinstance(body[0].value, ast.Constant) \
+                and isinstance(body[0].value.value, str):
+            c["doc"] = [body[0].value.value]
+        for stmt in body:
+            if isinstance(stmt, ast.AnnAssign) and isinstance(stmt.value, ast.Call) and isinstance(stmt.target, ast.Name):
+                kws = {k.arg: k.value for k in stmt.value.keywords}
+                req = bool(getattr(kws.get("required"), "value", False))
+                src = [kws["source"].value] if "source" in kws and isinstance(kws["source"], ast.Constant) else []
+                c["props"].append({"attr": stmt.target.id, "ann": _type_expr(stmt.annotation),
+                                   "required": req, "source": src})
+        out.append(c)
+    return out
+
+
+def _pym_obs(st):
+    from statham.serializers import serialize_python
+    sj = codec.schema_to_json(st["doc"])
+    kind, el = drive.parse_labelled(sj)
+    if kind != "ok":
+        return None
+    try:
+        real = module_struct(serialize_python(el))
+    except Exception as exc:  # noqa
+        return {"err": type(exc).__name__ + ": " + str(exc)[:100]}
+    model = [dict(m, args=sorted(m["args"])) for m in st["pym"]]
+    return {"same": json.dumps(real, sort_keys=True) == json.dumps(model, sort_keys=True)}
+
+
+def pymodule_model_part(rep, tier):
+    """MC_Py: PyModule.tla predicts the generated module (declaration order, class arguments,
+    docstring, property lines with annotation / required / source); TLC checks on the model that
+    every class is declared once and after everything it uses; the real module is read back
+    with ast and compared (equal => TLC's verdict stands)."""
+    lines, meta = df._cached_tlc("py-bfs", df._cfg(df.TIERS[tier]["bfs"], False), module="MC_Py")
+    seeds, smeta = df._cached_tlc("py-seed", df._cfg(df.TIERS[tier]["seed"], False, "SeedSpec",
+                                                      df.TIERS[tier]["seed_levels"]), module="MC_Py")
+    states = lines + seeds
+    obs = drive.pmap(_pym_obs, states, chunksize=64)
+    drift = flagged = errs = 0
+    for st, ob in zip(states, obs):
+        if ob is None:
+            continue
+        if "err" in ob:
+            errs += 1
+            continue
+        if not ob["same"]:
+            drift += 1
+        elif st["mdecl"]:
+            flagged += 1
+            rep.violation(("C02", "declared-after-use-or-twice", "design"),
+                          f"(design level, real module equals the model's) {json.dumps(codec.schema_to_json(st['doc']))[:240]}",
+                          dict(state=st))
+    return dict(states=meta["distinct"] + smeta["distinct"], transitions=meta["states"] + smeta["states"],
+                modules_compared=len(states), drift=drift, generation_errors=errs, model_flagged=flagged)
+
+
 # ------------------------------------------------------------------ C09: other processes
 DRIVER = r'''
 import sys, json, hashlib
@@ -352,11 +419,16 @@ def collect(rep, pid, tier, replay_file=None):
                           f"{ob.get('msg', '')} {ob.get('exec_err', '')} classes={[c['name'] for c in ob.get('classes', [])]} parsed={ob.get('parsed')}",
                           dict(state=st, observed={k: v for k, v in ob.items() if k not in ('root_elem',)}))
 
+    pym = {}
+    if pid == "C02" and not replay_file:
+        pym = pymodule_model_part(rep, tier)
+        extra["pymodule_model"] = pym
     if not replay_file and len(nontrivial) < 2:
         raise MachineryError("vacuity: no non-trivial case")
     coverage = dict(
-        states=int(meta.get("distinct", 0)) + adj_states, transitions=int(meta.get("states", 0)) + len(events),
-        traces_validated_against_impl=len(events), evaluations=len(events), distinct_nontrivial=len(nontrivial),
+        states=int(meta.get("distinct", 0)) + adj_states + pym.get("states", 0),
+        transitions=int(meta.get("states", 0)) + len(events) + pym.get("transitions", 0),
+        traces_validated_against_impl=len(events) + pym.get("modules_compared", 0), evaluations=len(events), distinct_nontrivial=len(nontrivial),
         rule={"C02": "one case = one document set driven through statham.__main__.main and exec; non-trivial = distinct generated module texts",
               "C09": "one case = one document set generated under several PYTHONHASHSEED values in separate processes; non-trivial = distinct outputs",
               "C20": "one case = one document set; non-trivial = distinct cyclic / unsupported reference graphs",
